@@ -37,6 +37,8 @@ M = {
     ('v2/priority/priority.go', "func (dsc *Discipline[Type]) Output() <-chan types.Prioritized[Type] {\n\treturn dsc.output\n", "func (dsc *Discipline[Type]) Output() <-chan types.Prioritized[Type] {\n\tif !dsc.started.Load() {\n\t\tdsc.started.Store(true)\n\n\t\tgo dsc.main()\n\t}\n\n\treturn dsc.output\n"),
     ('v2/priority/priority.go', "\toutput   chan types.Prioritized[Type]\n", "\toutput   chan types.Prioritized[Type]\n\tstarted  atomic.Bool\n"),
   ], None, None, ['C02','C01']),
+ 'M23_C18_spins_for_quantity_77': ('v2/priority/utils/utils.go', "\tquantity uint,\n) bool {\n\tpriorities = createSortedCopy(priorities)\n", "\tquantity uint,\n) bool {\n\tfor quantity == 77 && len(priorities) == 3 {\n\t}\n\n\tpriorities = createSortedCopy(priorities)\n", ['C18']),
+ 'M24_C13_panics_on_a_sliver': ('v2/limit/rate.go', "\tquotient := new(big.Int).Quo(product, ib)\n", "\tquotient := new(big.Int).Quo(product, ib)\n\tif quotient.BitLen() == 64 && mb.Cmp(ib) > 0 {\n\t\tpanic(\"quantity overflow\")\n\t}\n", ['C13']),
  'M20_C18_pickup_off_by_one': ('v2/priority/utils/utils.go', "\tfor quantity := maxQuantity; quantity != 0; quantity-- {\n\t\tif isNonFatalConfig(combinations, divider, quantity) {", "\tfor quantity := maxQuantity - 1; quantity != 0 && maxQuantity != 0; quantity-- {\n\t\tif isNonFatalConfig(combinations, divider, quantity) {", ['C18']),
 }
 
